@@ -74,6 +74,7 @@ func cmdVerify(args []string) {
 	onlySpec := fs.Bool("spec", true, "only functions that have a contract")
 	ovf := fs.Bool("ovf", false, "generate integer-overflow obligations")
 	noRetry := fs.Bool("noretry", true, "do not retry undischarged obligations with a larger budget")
+	only := fs.String("only", "", "solve only the obligations whose name contains one of these comma-separated substrings (proof-engineering loop)")
 	fs.Parse(args)
 	checkOverflow = *ovf
 	e, err := LoadEngine(repoDir())
@@ -115,6 +116,18 @@ func cmdVerify(args []string) {
 		for _, n := range x.notes {
 			fmt.Printf("  note: %s\n", n)
 		}
+	}
+	if *only != "" {
+		var sel []*Obligation
+		for _, o := range all {
+			for _, sub := range strings.Split(*only, ",") {
+				if sub != "" && strings.Contains(o.Name, sub) {
+					sel = append(sel, o)
+					break
+				}
+			}
+		}
+		all = sel
 	}
 	gen := time.Since(t0)
 	SolveAll(all, SolveOpts{TimeoutMs: *timeout, Dir: tmp, NoRetry: *noRetry}, 2*runtime.NumCPU())
